@@ -120,6 +120,10 @@ func (lex *Lexer) Lex() *token.Token {
 			goto st6
 		case 7:
 			goto st7
+		case 8:
+			goto st8
+		case 9:
+			goto st9
 		}
 
 		if (lex.p)++; (lex.p) == (lex.pe) {
@@ -141,6 +145,10 @@ func (lex *Lexer) Lex() *token.Token {
 			goto st_case_6
 		case 7:
 			goto st_case_7
+		case 8:
+			goto st_case_8
+		case 9:
+			goto st_case_9
 		}
 		goto st_out
 	tr0:
@@ -269,6 +277,8 @@ func (lex *Lexer) Lex() *token.Token {
 			goto st6
 		case 65:
 			goto tr8
+		case 96:
+			goto st8
 		case 97:
 			goto tr8
 		}
@@ -322,6 +332,69 @@ func (lex *Lexer) Lex() *token.Token {
 		}
 	st_case_7:
 		goto tr6
+	tr9:
+		if lex.data[lex.p] == '\n' {
+			lex.newLines.Append(lex.p + 1)
+		}
+
+		if lex.data[lex.p] == '\r' && lex.p+1 < len(lex.data) && lex.data[lex.p+1] != '\n' {
+			lex.newLines.Append(lex.p + 1)
+		}
+
+		goto st9
+	tr10:
+		lex.te = (lex.p) + 1
+		{
+			lex.setTokenPosition(tkn)
+			tok = token.T_STRING
+			{
+				(lex.p)++
+				lex.cs = 3
+				goto _out
+			}
+		}
+		goto st3
+	tr11:
+		lex.te = (lex.p)
+		(lex.p)--
+		{
+			lex.setTokenPosition(tkn)
+			tok = token.T_STRING
+			{
+				(lex.p)++
+				lex.cs = 3
+				goto _out
+			}
+		}
+		goto st3
+	st8:
+		if (lex.p)++; (lex.p) == (lex.pe) {
+			goto _test_eof8
+		}
+	st_case_8:
+		switch lex.data[(lex.p)] {
+		case 10:
+			goto tr9
+		case 13:
+			goto tr9
+		case 96:
+			goto tr10
+		}
+		goto st8
+	st9:
+		if (lex.p)++; (lex.p) == (lex.pe) {
+			goto _test_eof9
+		}
+	st_case_9:
+		switch lex.data[(lex.p)] {
+		case 10:
+			goto tr9
+		case 13:
+			goto tr9
+		case 96:
+			goto tr10
+		}
+		goto st8
 	st_out:
 	_test_eof1:
 		lex.cs = 1
@@ -341,6 +414,12 @@ func (lex *Lexer) Lex() *token.Token {
 	_test_eof7:
 		lex.cs = 7
 		goto _test_eof
+	_test_eof8:
+		lex.cs = 8
+		goto _test_eof
+	_test_eof9:
+		lex.cs = 9
+		goto _test_eof
 
 	_test_eof:
 		{
@@ -355,6 +434,10 @@ func (lex *Lexer) Lex() *token.Token {
 				goto tr6
 			case 7:
 				goto tr6
+			case 8:
+				goto tr11
+			case 9:
+				goto tr11
 			}
 		}
 
